@@ -6,6 +6,7 @@ package controlcommands
 
 import (
 	"errors"
+	"sync"
 
 	"github.com/AliceO2Group/Control/common/utils/uid"
 	vrt "github.com/AliceO2Group/Control/zz_vrt"
@@ -38,15 +39,16 @@ const c12Opts = "stub=github.com/AliceO2Group/Control/common/utils.TimeTrack"
 // task u, with or without an error inside; the send may fail; the response timer may fire at any moment.
 // The call must return its own reply (one addressed to A from t, delivered before the timer) or an error,
 // never anything else, and must not leave its entry behind.
-//verif:entry HarnessRunCommandVsAdversary unwind=8 timers=eager preempt=3 reach=own,timeout,sendfail stub=github.com/AliceO2Group/Control/common/utils.TimeTrack
-//verif:thorough HarnessRunCommandVsAdversary preempt=99
+//verif:entry HarnessRunCommandVsAdversary unwind=8 timers=eager preempt=2 reach=own,timeout,sendfail stub=github.com/AliceO2Group/Control/common/utils.TimeTrack
+//verif:thorough HarnessRunCommandVsAdversary preempt=3 paths=2000000
 func HarnessRunCommandVsAdversary() {
 	t, u := c12Target("t"), c12Target("u")
 	A, B := c12Cmd(t, u), c12Cmd(t, u)
 	sendFails := vrt.Bool("send.fails")
 	sent := 0
 	var s *Servent
-	nReplies := vrt.IntRange("replies", 0, 3)
+	nReplies := vrt.IntRange("replies", 0, 2+vrt.Tier())
+	var replyGoroutines sync.WaitGroup
 	var delivered []*MesosCommandResponse_Transition
 	var fromT, forA []bool
 	s = NewServent(func(command MesosCommand, receiver MesosCommandTarget) error {
@@ -69,12 +71,22 @@ func HarnessRunCommandVsAdversary() {
 			if sender {
 				snd = t
 			}
-			go s.ProcessResponse(r, snd)
+			replyGoroutines.Add(1)
+			go func() {
+				s.ProcessResponse(r, snd)
+				replyGoroutines.Done()
+			}()
 		}
 		return nil
 	})
 	res, err := s.RunCommand(A.MakeSingleTarget(t), t)
 	vrt.Assert(sent == 1, "command-is-sent-exactly-once")
+	if err == nil {
+		// the command completed with a reply, exactly once: every other reply (duplicate, foreign, late) is
+		// dropped, none is left waiting for a completion that already happened (a goroutine stuck here shows
+		// up as a deadlock)
+		replyGoroutines.Wait()
+	}
 	s.mu.Lock()
 	_, left := s.pending[CallId{Id: A.GetId(), Target: t}]
 	s.mu.Unlock()
